@@ -505,9 +505,16 @@ func (p *Path) convert0(v Val, from, to types.Type) Val {
 // ---------- slices ----------
 
 func (p *Path) makeSlice(in ssa.Instruction, et types.Type, ln, cp *smt.Term) Val {
-	lim := i64(1 << 40)
+	// runtime.makeslice panics iff len < 0, len > cap or cap*elemsize exceeds
+	// the address space (maxAlloc = 2^48 bytes on amd64); an allocation that is
+	// merely too large for the machine is resource exhaustion, not modelled
+	esz := types.SizesFor("gc", "amd64").Sizeof(et)
+	if esz < 1 {
+		esz = 1
+	}
+	lim := i64((1 << 48) / esz)
 	if in != nil {
-		p.safety(in, "makeslice", smt.And(smt.BVUle(ln, cp), smt.BVUle(cp, lim)), "make: len/cap out of range (negative or larger than 2^40 elements)")
+		p.safety(in, "makeslice", smt.And(smt.BVUle(ln, cp), smt.BVUle(cp, lim)), "make: len/cap out of range (negative, or cap*elemsize above 2^48 bytes: runtime panic)")
 	}
 	n, ok := cp.Uint64()
 	if !ok {
